@@ -76,6 +76,10 @@ fn val(s: &str) -> Result<Variant, VariantError> {
     if state == STATE_INITIAL || state == STATE_SIGN {
         Ok(Variant::VDouble(0.0))
     } else {
+        // a numeral beyond the range of a double is an overflow, not an infinity
+        if !value.is_finite() {
+            return Err(VariantError::Overflow);
+        }
         let x = Variant::VDouble(value);
         if is_positive { Ok(x) } else { x.negate() }
     }
